@@ -25,11 +25,13 @@ def short(spec):
 
 def solve_and_judge(ctx, case, accept, skip_if_polarity_lost=True, solve_kw=None):
     """Build, solve, judge.  -> (df, info) or (None, None) when solve raised / table outside the quantifier."""
-    spec = case["spec"]
+    import copy
+
+    if "_orig_spec" not in case:
+        case["_orig_spec"] = copy.deepcopy(case["spec"])
+    spec, sysobj = build_with_history(ctx, copy.deepcopy(case["_orig_spec"]), case.get("history", "fresh"), case.get("hseed", 0))
+    case["spec"] = spec  # the structure the judged table must correspond to
     tol = M.Tol(case["tol"], case["tol"])
-    st, sysobj = H.try_build(spec)
-    if st != "ok":
-        raise RuntimeError("generator produced a spec the public API rejects: %s" % H.exc_sig(sysobj))
     kw = dict(vtol=case["tol"], itol=case["tol"], ta=case.get("ta", 25.0))
     kw.update(solve_kw or {})
     kw.update(case.get("kw") or {})
@@ -83,7 +85,7 @@ def random_call_context(rng):
     if rng.random() < 0.2:
         kw["phase"] = "<some>"
     pre = [rng.choice(["solve", "solve_phase", "rail_rep", "params", "solve_loose"]) for _ in range(rng.choice([0, 0, 1, 2]))]
-    return {"kw": kw, "pre": pre, "phase_pick": rng.randrange(8)}
+    return {"kw": kw, "pre": pre, "phase_pick": rng.randrange(8), "history": rng.choice(HISTORIES), "hseed": rng.randrange(1 << 30)}
 
 
 def repo_tests_under_monitor(ctx, accept):
@@ -129,3 +131,75 @@ def repo_tests_under_monitor(ctx, accept):
     for v in res.get("violations", []):
         if any(v["clause"].startswith(a) for a in accept):
             ctx.violate(v["clause"], v["detail"], v["case"])
+
+
+HISTORIES = ["fresh", "fresh", "fresh", "solve_then_move_leaf", "solve_then_phase_conf", "solve_then_change_comp"]
+
+
+def build_with_history(ctx, spec, mode, hseed):
+    """Build the real System for `spec`, optionally through a history in which the system is ANALYSED, then
+    edited / re-configured, and only then judged.  Returns (effective spec, System)."""
+    import copy
+    import random
+
+    from .. import hist, loader
+
+    ns = loader.load()
+    rng = random.Random(hseed)
+    cm = S.comp_map(spec)
+
+    def fresh(sp):
+        st, so = H.try_build(sp)
+        if st != "ok":
+            raise RuntimeError("generator produced a spec the public API rejects: %s" % H.exc_sig(so))
+        return so
+
+    def analyse(so):
+        with H.quiet():
+            H.call(getattr(so, rng.choice(["solve", "solve", "phases", "rail_rep", "params"])))
+
+    if mode == "solve_then_move_leaf":
+        leaves = [c for c in spec["comps"] if c["kind"] in S.LOADS]
+        rng.shuffle(leaves)
+        for lf in leaves:
+            wrong = [c["name"] for c in spec["comps"] if c["kind"] not in S.LOADS and c["name"] not in lf["parents"]
+                     and spec["comps"].index(c) < spec["comps"].index(lf)]
+            if not wrong:
+                continue
+            detour = copy.deepcopy(spec)
+            d = S.comp_map(detour)[lf["name"]]
+            d["parents"], d["via_rail"] = [rng.choice(wrong)], [False]
+            so = fresh(detour)
+            analyse(so)
+            so.del_comp(lf["name"])
+            S.add_one(so, spec, lf, ns)
+            if lf.get("phase") is not None:
+                so.set_comp_phases(lf["name"], copy.deepcopy(lf["phase"]))
+            ctx.count("history", mode)
+            return spec, so
+    elif mode == "solve_then_phase_conf" and spec.get("phases") and any(c.get("phase") is not None for c in spec["comps"]):
+        bare = copy.deepcopy(spec)
+        for c in bare["comps"]:
+            c["phase"] = None
+        so = fresh(bare)
+        analyse(so)
+        for c in spec["comps"]:
+            if c.get("phase") is not None:
+                so.set_comp_phases(c["name"], copy.deepcopy(c["phase"]))
+        ctx.count("history", mode)
+        return spec, so
+    elif mode == "solve_then_change_comp" and spec.get("phases"):
+        conf = [c for c in spec["comps"] if c.get("phase") and c["kind"] != "PMux"]
+        if conf:
+            so = fresh(spec)
+            analyse(so)
+            eff = copy.deepcopy(spec)
+            em = S.comp_map(eff)
+            for c in conf[: rng.randint(1, 2)]:
+                # replacing a component (here: by an identical one) resets its phase configuration
+                so.change_comp(c["name"], comp=S.make_comp(ns, c), group=c.get("group", ""), rail=c.get("rail", ""))
+                em[c["name"]]["phase"] = None
+            ctx.count("history", mode)
+            return eff, so
+    ctx.count("history", "fresh")
+    return spec, fresh(spec)
